@@ -36,6 +36,9 @@ type Case struct {
 	Preview bool `json:"preview,omitempty"`
 	// FailFirst: the File's first render goes into a writer that fails; the second render is what is checked.
 	FailFirst bool `json:"failfirst,omitempty"`
+	// Fresh: the File is built and rendered in a fresh process (the first File that process sees), after
+	// the process has asked jen.IsReservedWord about the given words (a generator sanitising identifiers).
+	Fresh []string `json:"fresh,omitempty"`
 }
 
 func (c Case) scenario(noFormat bool) imps.Scenario {
@@ -225,6 +228,15 @@ func check(c Case) error {
 			o.Src = src
 			o.Rep, err = impcheck.Analyze(src, &impcheck.World{Real: sc.Real(o.Model), Markers: o.Markers, LocalPath: o.Model.Local, HasLocal: true})
 		}
+	} else if len(c.Fresh) > 0 {
+		var ok bool
+		o, ok, err = sc.RunFresh(c.Fresh)
+		if !ok {
+			return nil // cannot re-execute: nothing to judge
+		}
+		if err == nil && o.RenderErr != nil {
+			return fmt.Errorf("in a fresh process: %v", o.RenderErr)
+		}
 	} else {
 		o, err = sc.Run()
 	}
@@ -337,6 +349,13 @@ var preambles = [][]string{
 	{"#include <a.h>\nstatic const char table[] = \"" + strings.Repeat("0123456789abcdef", 4400) + "\";\nstatic int answer(void) { return 42; }"},
 }
 
+// TestImpsFreshChild is the re-executed half of the fresh-process cases.
+func TestImpsFreshChild(t *testing.T) {
+	if !imps.FreshChild() {
+		t.Skip("helper")
+	}
+}
+
 func TestC19(t *testing.T) {
 	r := hx.Start(t, "C19")
 	defer r.Finish(t)
@@ -392,6 +411,20 @@ func TestC19(t *testing.T) {
 			}
 		}
 		r.Exhaustive("the stated cross product")
+		// the same File as the first File of a fresh process whose first use of the package is IsReservedWord
+		if r.Shard == 0 {
+			for i, hint := range []string{"none", "nameC", "aliasC", "dotC", "underC", "otherC"} {
+				for j, intro := range []string{"qual", "anon", "qual+anon"} {
+					if !r.Thorough() && (i+j+int(r.Seed))%3 != 0 {
+						continue
+					}
+					c := Case{Intro: intro, Preamble: []string{"#include <stdio.h>"}, Others: []string{"one", "many", "guessc"}[(i+j)%3], Hint: hint, CFirst: (i+j)%2 == 0, Fresh: []string{"x", "C"}}
+					hx.One(r, ck, c)
+					r.NonTrivial(fmt.Sprintf("%+v", c))
+					r.Class("first_file_of_a_fresh_process")
+				}
+			}
+		}
 		// every number of preamble blocks from 1 to 70 (a File may keep its parts in a structure that changes
 		// with their number), alone and next to other imports
 		if r.Shard == 0 {
